@@ -135,7 +135,7 @@ def nontrivial_static(segs, res, rule_kind):
     return len(seen)
 
 
-def static_check(pid, tier, kinds, cert, rule_kind, rule, sems="GR,CO,PR,ST,SST,STG,ID", lists=1, plan=None, extra=None, mc=("PR", "ID", "Range", "Compose")):
+def static_check(pid, tier, kinds, cert, rule_kind, rule, sems="GR,CO,PR,ST,SST,STG,ID", lists=1, plan=None, extra=None, mc=("PR", "ID", "Range", "Compose"), after=None):
     res = Result(pid, tier)
     vlib.build_harness()
     # (A) design level: the search procedures are correct for every framework <= 3 arguments and every SAT-oracle schedule
@@ -168,6 +168,8 @@ def static_check(pid, tier, kinds, cert, rule_kind, rule, sems="GR,CO,PR,ST,SST,
         t1, st = vlib.judge("TraceStatic.tla", segs, res.wd, pid + "_seq", shards=8)
         res.add_judge("reused_solver_objects", t1, st, only_props={pid})
         allsegs += segs
+    if after:
+        after(res, sets)
     res.nontrivial = nontrivial_static(allsegs, res, rule_kind)
     res.rule = rule
     for seg in allsegs[-3:]:
@@ -203,10 +205,37 @@ def c03(tier):
                         "non-trivial = framework with >= 3 arguments and >= 2 attacks")
 
 
+def _printed_certificates(res, sets):
+    """C04's second observation point: the `w` line printed by the binaries (small frameworks judged exactly; instances whose
+    certificates have > 1000 members -- several KiB of text -- judged by polynomial necessary conditions)"""
+    thorough = res.tier == "thorough"
+    bindir = vlib.build_repo_bins()
+    bins = {"crustabri": os.path.join(bindir, "crustabri"), "iccma23": os.path.join(bindir, "crustabri_iccma23")}
+    rng = random.Random(seed() + 4)
+    invs = [{"bin": b, "file": "good", "fmt": fmt, "pclass": "valid", "kind": kind, "argc": "valid", "enc": enc, "cert": True, "log": "off"}
+            for (b, fmt) in (("crustabri", "iccma"), ("crustabri", "apx"), ("iccma23", "iccma")) for kind in ("DC", "DS")
+            for enc in (("unset", "aux_var", "exp", "hybrid") if b == "crustabri" else ("unset",))]
+    pool = [a for a in sets["ref3"] if a["n"] == 3] + [a for a in sets["shaped"] if 2 <= a["n"] <= 9] + [a for a in sets["rand"] if a["n"] <= 7]
+    rng.shuffle(pool)
+    afs = pool[:300 if thorough else 100]
+    todo = invs * (len(afs) * (6 if thorough else 4) // len(invs) + 1)
+    t = time.time()
+    segs, used = clilib.run_all(todo, afs, res.wd, bins, seed() + 4, len(todo) // len(afs) + 1)
+    t1, st = vlib.judge("TraceStatic.tla", segs, res.wd, "cli_certificates", shards=8)
+    res.add_judge("printed_certificates", t1, st, only_props={"C04"})
+    bigsegs = clilib.run_big(clilib.big_instances(seed() + 4, 8 if thorough else 3), res.wd, bins, seed() + 4,
+                             queries=(("DC", "CO"), ("DC", "CO"), ("DC", "ST"), ("DC", "PR"), ("DS", "ST"), ("DS", "ST"), ("DS", "PR"), ("DC", "SST"), ("DS", "CO")))
+    t1b, stb = vlib.judge("TraceStatic.tla", bigsegs, res.wd, "cli_big_certificates", shards=min(8, len(bigsegs)))
+    res.add_judge("printed_big_certificates", t1b, stb, only_props={"C04"})
+    log("  RUN cli certificates: %d invocations on %d frameworks + %d big instances %.1fs" % (used, len(afs), len(bigsegs), time.time() - t))
+
+
 @check("C04")
 def c04(tier):
     return static_check("C04", tier, "DC,DS", "yes", "CERT",
-                        "acceptance queries through the *_with_certificate entry points; non-trivial = a certificate was returned on a framework with >= 3 arguments")
+                        "acceptance queries through the *_with_certificate entry points, and the `w` lines printed by both binaries with a certificate "
+                        "requested (also on instances whose certificates have > 1000 members); non-trivial = a certificate was returned on a framework with >= 3 arguments",
+                        after=_printed_certificates)
 
 
 @check("C07")
@@ -411,13 +440,17 @@ def c06(tier):
              ("shaped_external", sets["shaped"] if thorough else [a for a in sets["shaped"] if a["n"] <= 8][:16], "compact", "cadical,ext:" + FAKESAT)]
     if thorough:
         plans.append(("rand_kissat", sets["rand"][:200], "compact", "cadical,ext:kissat|-q"))
+    # the range-based searches visit the maximal ranges in an order that depends on the models, hence on the encoding: many frameworks with
+    # several incomparable ranges are needed to see an encoding-dependent answer (seed C06-4: 1 framework in 250 for STG)
+    plans.append(("range_rand_embedded", afgen.random_afs(seed() + 7, 6000 if thorough else 1500, 6, 10), "compact", "cadical"))
     nt = 0
     for name, afs, present, backends in plans:
         afile = os.path.join(res.wd, name + ".afs.jsonl")
         out = os.path.join(res.wd, name + ".ndjson")
         afgen.write(afile, afs)
         t = time.time()
-        vlib.vh(["seq", "--afs", afile, "--out", out, "--present", present, "--backends", backends, "--seed", seed(), "--threads", vlib.NCPU])
+        vlib.vh(["seq", "--afs", afile, "--out", out, "--present", present, "--backends", backends, "--seed", seed(), "--threads", vlib.NCPU]
+                + (["--sems", "SST,STG"] if name.startswith("range_") else []))
         segs = vlib.segments(out, openers=("af",))
         log("  RUN %-18s %5d frameworks -> %7d events %.1fs" % (name, len(afs), sum(len(s) for s in segs), time.time() - t))
         t1, st = vlib.judge("TraceStatic.tla", segs, res.wd, name)
@@ -429,6 +462,15 @@ def c06(tier):
         if len(res.samples) < 3 and segs:
             s = segs[len(segs) // 2]
             res.samples.append({"framework": {k: s[0][k] for k in ("n", "att", "present")}, "events": s[1:4]})
+    # the backend dimension taken to its limit: whichever models the SAT oracle returns (depth-first exploration of the model choices of the
+    # real code, as in C02/C03), under each encoder and certificate flag, the status of a query is one and the same
+    ex_afs = sets["rand"] + afgen.random_afs(seed() + 8, 1200 if thorough else 300, 6, 10)
+    segs = run_static(res, "C06_schedules", ex_afs, sems="PR,SST,STG,ID,ST,CO", kinds="DC,DS", cert="both", present="compact", oracle="dfs",
+                      budget=12 if thorough else 6, agree="yes", cap=400)
+    segs = [[e for e in s if e["ev"] in ("af", "agree", "frame")] for s in segs]
+    t1, st = vlib.judge("TraceStatic.tla", segs, res.wd, "schedules", shards=8)
+    res.add_judge("model_schedules", t1, st, only_props={"C06"})
+    nt += sum(1 for s in segs for e in s if e.get("ev") == "agree" and e["n"] >= 4)
     res.nontrivial = nt
     res.rule = ("per framework and per (semantics, DC|DS): one solver object per (encoder, backend) answers a seeded sequence of 2n+2 queries with "
                 "repetitions and random certificate flag; one 'agree' event per (semantics, kind, argument) listing the distinct statuses over all "
